@@ -356,6 +356,16 @@ Lemma alt_prefix_order_refuted :
   simp_text t_prefix = "foo?" /\ differ t_prefix (simp_ast t_prefix) "foo".
 Proof. split; [vm_compute; reflexivity|vm_compute; discriminate]. Qed.
 
+(* 3b. (?U:abc|ab) => (?U:abc?) : under the U flag the factored "?" is non-greedy *)
+Definition t_prefix_U :=
+  X OpGroupWithFlags "(?U:abc|ab)"
+    [X OpAlt "abc|ab" [X OpConcat "abc" [X OpChar "a" []; X OpChar "b" []; X OpChar "c" []];
+                       X OpConcat "ab" [X OpChar "a" []; X OpChar "b" []]];
+     X OpString "U" []].
+Lemma alt_factoring_under_ungreedy_flag_refuted :
+  simp_text t_prefix_U = "(?U:abc?)" /\ differ t_prefix_U (simp_ast t_prefix_U) "abc".
+Proof. split; [vm_compute; reflexivity|vm_compute; discriminate]. Qed.
+
 (* 4. (a){0}b => b : a capture group disappears *)
 Definition t_zero_cap :=
   X OpConcat "(a){0}b" [X OpRepeat "(a){0}" [X OpCapture "(a)" [X OpChar "a" []]; X OpString "{0}" []]; X OpChar "b" []].
